@@ -83,6 +83,25 @@ ASSUMPTIONS = [
     "compared with a fresh process (which owns a never-used Environment), and after every operation "
     "the caller's Environment object (number and identity of its namespaces, names and objects they "
     "bind) and the extra_namespace dicts handed in are compared with what they were",
+    "objects of the caller handed to transforms BY NAME: the namespace of every history also binds a "
+    "NumPy array `ks` of interior knots whose values are not in increasing order and a list `kl`; two "
+    "formulas pass them to bs(..., knots=ks / kl) (common term, interaction; not as group-specific "
+    "effect: printing a design with a multi-column numeric group-specific effect raises AssertionError "
+    "on the unchanged library, a printing defect reported separately), "
+    "explored exhaustively in short histories (pool 'arr') and in random ones together with other "
+    "stateful formulas and frames with missing values (pool 'fullarr'), through plain builds and through "
+    "the caller-owned Environment; after every operation the caller's namespace AND every "
+    "extra_namespace dict handed in are compared by names, identity of the bound objects and a deep "
+    "value snapshot of every object (lists / dicts element-wise, NumPy arrays by dtype / shape / bytes, "
+    "instances by attribute state) taken before the first operation / at hand-in",
+    "hash randomisation: every process of this check runs under PYTHONHASHSEED=0, except the hash-seed "
+    "stage: 8 formulas whose interactions of three / four categoric factors have only part of their "
+    "margin in the model (the terms added for full-rankness are interactions of two or more categoric "
+    "factors) are built in brand-new interpreters started with PYTHONHASHSEED=0 and 3 (thorough: 6) "
+    "other values drawn from the seed (quick: 4 of the formulas on one frame; thorough: all on two "
+    "frames); the outputs (matrices, term names, slices, column labels, levels) must be identical "
+    "(Spec.C07.holds evaluated by the Lean driver with the first interpreter's output as fresh-state "
+    "output); determinism under other sources of nondeterminism than the hash seed is not explored",
     "absence of writes to arrays/DataFrames already returned, object aliasing (shared Term objects, "
     "shared slices dict), the Polynomial memo dictionaries and the TRANSFORMS registry are outside "
     "the model: they are covered only by the snapshot checks of this harness and by the translator "
@@ -120,10 +139,33 @@ FORMULAS = [
     ("y ~ fn(x) + f", False),
     ("y ~ I(x + off) + (fn(z) | g)", False),
     ("y ~ 0 + h:fn(x + off) + center(z)", False),
+    # arguments of stateful transforms that are OBJECTS OF THE CALLER passed by name: a NumPy array of
+    # interior knots that is not in increasing order (`ks`), a list of knots (`kl`); what a transform
+    # does with them must stay in the design (the caller's array keeps its values and their order)
+    ("y ~ bs(z, knots=ks) + h", False),
+    # (as common terms / interactions only: PRINTING a design whose group-specific effect is a
+    # multi-column numeric call, `(bs(z, df=4) | h)`, raises AssertionError in
+    # GroupEffectsMatrix.__str__ on the unchanged library — reported, a printing defect, not an
+    # isolation one; such an effect is therefore not part of this pool)
+    ("y ~ f + bs(z, knots=kl, degree=2) + bs(z, knots=ks, degree=1):h + (z | g)", False),
+    # interactions of three or four categoric factors with only part of their margin in the model: the
+    # terms added for full-rankness are themselves interactions of TWO or more categoric factors
+    # (hash-seed stage: built in fresh interpreters started with different PYTHONHASHSEED values)
+    ("y ~ f + f:g:h", False),
+    ("y ~ 0 + g + f:g:cu", False),
+    ("y ~ x + h + h:f:g:x", False),
+    ("y ~ cu + cu:f:h + (1 | g)", False),
+    ("y ~ C(k) + C(k):f:g", False),
+    ("y ~ 0 + f:g + f:g:h:cu", False),
+    ("y ~ h + f:g:h + g:h:cu", False),
+    ("y ~ g + g:h:f:z + (0 + f:h | cu)", False),
 ]
 ENC_FORMULAS = [8, 9, 10, 11]
 N_PLAIN = 12                # formulas 0..11 need no binding
 BOUND_FORMULAS = [12, 13, 14]
+ARRAY_FORMULAS = [15, 16]   # name caller-owned arrays / lists as transform arguments
+N_BEFORE_ARRAYS = 15        # (the pools written before them keep their formulas: same histories)
+HASH_FORMULAS = list(range(17, 25))   # need extra terms made of >= 2 categoric factors
 
 
 def _fn_double(v):
@@ -161,7 +203,10 @@ POOLS = {
     # builds that pass ONE caller-owned Environment object as `env=` together with an extra_namespace
     # that differs from build to build (a build op then has a 4th element: the index into BINDINGS)
     "env": (BOUND_FORMULAS[:2], [0], [0, 1], ["silent"], False),
-    "fullenv": (list(range(len(FORMULAS))), [0, 1, 2, 4], [0, 1, 2, 3], MODES, False),
+    "fullenv": (list(range(N_BEFORE_ARRAYS)), [0, 1, 2, 4], [0, 1, 2, 3], MODES, False),
+    # formulas whose transforms are given caller-owned arrays / lists by name
+    "arr": (ARRAY_FORMULAS, [0, 2], [0, 1], ["silent"], False),
+    "fullarr": (ARRAY_FORMULAS + [4, 2, 0], [0, 1, 2, 4, 5], [0, 1, 2, 3, 4], MODES, True),
 }
 # pools whose builds go through the caller-owned Environment: the bindings they draw from
 POOL_BINDINGS = {"env": [0, 1, 2], "fullenv": [0, 1, 2, 3]}
@@ -257,7 +302,9 @@ def make_namespace():
     """the caller's namespace of one history: plain data, a module, and caller-owned instances of the
     library's public encoding classes (default arguments)"""
     from formulae.categorical import Sum, Treatment
-    return {"lv_f": ["c", "a", "b"], "np": np, "shift": 3, "enc_t": Treatment(), "enc_s": Sum()}
+    return {"lv_f": ["c", "a", "b"], "np": np, "shift": 3, "enc_t": Treatment(), "enc_s": Sum(),
+            # interior knots inside the range of `z` in every frame with more than one row, NOT sorted
+            "ks": np.array([0.25, -0.25, 0.0]), "kl": [0.125, -0.375]}
 
 
 def _deep(v, depth=0):
@@ -671,7 +718,7 @@ class Proc:
                 # the caller's own Environment object as `env=`, and an extra_namespace of this build
                 extra = dict(self.ns, **BINDINGS[binding])
                 if self.check:
-                    self.extras.append((extra, list(extra.items())))
+                    self.extras.append((extra, list(extra.items()), namespace_state(extra)))
                 return _lib_build_env(lib, formula, df, extra, self.env)
             try:
                 with warnings.catch_warnings():
@@ -759,7 +806,11 @@ class Proc:
                       frame_fingerprint(self.frames[rel[1]]) == self.frame_fps[rel[1]])
         ns_ok = list(self.ns.keys()) == list(self.ns_copy[0].keys()) and all(
             self.ns[k] is self.ns_copy[0][k] for k in self.ns) and self.ns["lv_f"] == self.ns_copy[1]
-        self.flag(pos, "caller's namespace unchanged", ns_ok)
+        # (identity of every bound object and a deep value snapshot of all of them: lists / dicts
+        # element-wise, NumPy arrays by dtype / shape / bytes, instances by their attribute state)
+        self.flag(pos, "caller's namespace unchanged (names, identity and deep value of every object "
+                       "bound: arrays by dtype / shape / bytes)",
+                  ns_ok and namespace_state(self.ns) == self.ns_state)
         self.flag(pos, "attribute state of the objects in the caller's namespace unchanged (incl. "
                        "caller-owned Treatment() / Sum() instances named by the formulas)",
                   namespace_state(self.ns) == self.ns_state)
@@ -769,9 +820,11 @@ class Proc:
                   isinstance(spaces, list) and len(spaces) == len(self.env_spaces)
                   and all(a is b for a, b in zip(spaces, self.env_spaces))
                   and environment_state(self.env) == self.env_state)
-        self.flag(pos, "extra_namespace dicts handed to design_matrices unchanged",
+        self.flag(pos, "extra_namespace dicts handed to design_matrices unchanged (names, identity and "
+                       "deep value of every object bound: arrays by dtype / shape / bytes)",
                   all(len(d) == len(items) and all(k in d and d[k] is v for k, v in items)
-                      for d, items in self.extras[-6:]))
+                      and namespace_state(d) == state
+                      for d, items, state in self.extras[-6:]))
 
     def finish(self, pos):
         if self.check:
@@ -824,13 +877,13 @@ def run_fresh(frames, ops):
 # ------------------------------------------------------------------------------------------------
 # fresh processes
 # ------------------------------------------------------------------------------------------------
-def _child_env():
+def _child_env(hashseed="0"):
     env = dict(os.environ)
     for k in ("OMP_NUM_THREADS", "OPENBLAS_NUM_THREADS", "MKL_NUM_THREADS"):
         env[k] = "1"
     repo = os.environ.get("VERIF_REPO", "/repo")
     env["PYTHONPATH"] = repo + os.pathsep + HERE + os.pathsep + env.get("PYTHONPATH", "")
-    env["PYTHONHASHSEED"] = "0"
+    env["PYTHONHASHSEED"] = str(hashseed)
     return env
 
 
@@ -943,11 +996,11 @@ def _zygote_main():
         outp.flush()
 
 
-def exec_fresh(frames, ops):
-    """a brand-new interpreter (exec) replays `ops`"""
+def exec_fresh(frames, ops, hashseed="0"):
+    """a brand-new interpreter (exec), started with PYTHONHASHSEED=`hashseed`, replays `ops`"""
     payload = base64.b64encode(pickle.dumps((frames, ops)))
     p = subprocess.run([sys.executable, os.path.abspath(__file__), "--exec-fresh"], input=payload,
-                       stdout=subprocess.PIPE, stderr=subprocess.PIPE, env=_child_env())
+                       stdout=subprocess.PIPE, stderr=subprocess.PIPE, env=_child_env(hashseed))
     if p.returncode != 0:
         return {"t": "raised", "cls": "harness:exec rc=%d %s" % (p.returncode,
                                                                   p.stderr.decode()[-200:])}
@@ -1188,6 +1241,69 @@ def ddmin(items, test, budget=150, seconds=45):
     return items
 
 
+def hashseed_stage(tier, seed, res, replay, frames):
+    """`design_matrices` is deterministic across processes: builds of formulas that need extra terms
+    made of two or more categoric factors, each in brand-new interpreters started with different
+    PYTHONHASHSEED values (everything else in this check runs under PYTHONHASHSEED=0); the outputs
+    (matrices, term names / slices, column labels, levels) must be identical: Spec.C07.holds with the
+    output under the first hash seed as the fresh-state output"""
+    from common import ask, rng_for
+    r = rng_for(seed, "c07", "hashseed")
+    if replay is not None:
+        if replay.get("pool") != "hashseed":
+            return
+        jobs = [([tuple(o) for o in replay["ops"]], [str(x) for x in replay["hashseeds"]])]
+    else:
+        fs = r.sample(HASH_FORMULAS, 4) if tier == "quick" else list(HASH_FORMULAS)
+        frs = [r.choice([0, 2])] if tier == "quick" else [0, 2]
+        n_seeds = 3 if tier == "quick" else 6
+        hs = ["0"] + [str(x) for x in r.sample(range(1, 2 ** 32), n_seeds)]
+        jobs = [([("b", f, d)], hs) for f in fs for d in frs]
+    runs = [(ops, h) for ops, hs in jobs for h in hs]
+    with ThreadPoolExecutor(max_workers=min(16, os.cpu_count() or 2)) as ex:
+        outs = list(ex.map(lambda a: exec_fresh(frames, a[0], a[1]), runs))
+    res.count("builds in brand-new interpreters under different PYTHONHASHSEED values", len(runs))
+    bad = [o for o in outs if o["t"] == "raised" and str(o.get("cls", "")).startswith("harness:")]
+    if bad:
+        raise RuntimeError(f"hash-seed stage: fresh interpreter failed: {bad[0]}")
+    table, index = [], {}
+
+    def intern(o):
+        k = out_key(o)
+        if k not in index:
+            index[k] = len(table)
+            table.append(out_json(o))
+        return index[k]
+    by_job, pos = [], 0
+    for ops, hs in jobs:
+        by_job.append(outs[pos:pos + len(hs)])
+        pos += len(hs)
+    hreqs = [{"impl": [intern(o) for o in js[1:]], "fresh": [intern(js[0])] * (len(js) - 1),
+              "unchanged": [], "mops": None} for js in by_job]
+    ans = ask([{"op": "c07_check", "frames": [], "builds": [], "outs": table, "histories": hreqs}])[0]
+    if "results" not in ans or ans.get("undecodable_outs"):
+        raise RuntimeError(f"driver (hash-seed stage): {str(ans)[:300]}")
+    for (ops, hs), js, a in zip(jobs, by_job, ans["results"]):
+        res.evaluations += len(hs)
+        if js[0]["t"] == "built":
+            res.count("hash-seed stage: designs built")
+            res.nontrivial.add(("hashseed",) + tuple(ops))
+        py_holds = all(out_key(o) == out_key(js[0]) for o in js[1:])
+        if py_holds != a["holds"]:
+            raise RuntimeError(f"driver and harness disagree on the hash-seed stage for {ops}")
+        if not a["holds"]:
+            k = next(i for i, o in enumerate(js) if out_key(o) != out_key(js[0]))
+            res.failures.append({
+                "case": {"ops": [list(o) for o in ops], "pool": "hashseed",
+                         "formulas": {o[1]: FORMULAS[o[1]][0] for o in ops if o[0] == "b"},
+                         "hashseeds": [hs[0], hs[k]],
+                         "kind": "one build in two brand-new interpreters started with different "
+                                 "PYTHONHASHSEED values"},
+                "impl": brief(js[k]), "expected": brief(js[0]), "finding": None,
+                "why": [f"design_matrices gives different output in fresh interpreters started with "
+                        f"PYTHONHASHSEED={hs[0]} and PYTHONHASHSEED={hs[k]}"]})
+
+
 def explore(tier, seed, res=None, replay=None):
     from common import Result, rng_for
     import multiprocessing as mp
@@ -1198,7 +1314,10 @@ def explore(tier, seed, res=None, replay=None):
                 "four of the formulas name caller-owned Treatment() / Sum() instances of the namespace; "
                 "three name a callee / an argument that only the extra_namespace of one build binds and "
                 "are built through ONE caller-owned Environment object (env=) per history, with a "
-                "different binding per build; "
+                "different binding per build; two name a caller-owned NumPy array (values not in "
+                "increasing order) / list as interior knots of bs(); eight need extra terms made of two or "
+                "more categoric factors and are also built in brand-new interpreters under different "
+                "PYTHONHASHSEED values (identical outputs required); "
                 "non-trivial = a history with >= 2 operations in which an evaluation returned a "
                 "matrix; distinct by operation sequence" % (len(FORMULAS), N_BASE + len(FORMULAS)))
     frames = make_frames(seed)
@@ -1239,6 +1358,17 @@ def explore(tier, seed, res=None, replay=None):
                                                           "fullenv", env_len)))
         res.count("random histories (pool 'fullenv': plain builds and builds through the caller-owned "
                   "Environment object, length <= %d)" % env_len, n_env)
+        arr_hist = enumerate_histories("arr", exh_len - 1)
+        for h in arr_hist:
+            batches.append(("arr", h))
+        res.count("exhaustive histories (pool 'arr': transforms given a caller-owned NumPy array (not "
+                  "sorted) / list of knots by name, length <= %d)" % (exh_len - 1), len(arr_hist))
+        n_arr, arr_len = (40, 10) if tier == "quick" else (600, 20)
+        for i in range(n_arr):
+            batches.append(("fullarr", random_history(rng_for(seed, "c07", "arrhist", i), "fullarr",
+                                                      arr_len)))
+        res.count("random histories (pool 'fullarr': the array-argument formulas mixed with other "
+                  "stateful ones, frames with missing values included, length <= %d)" % arr_len, n_arr)
     histories = [h for _, h in batches]
 
     # ---- run them: one process (quick) / a few long-lived worker processes (thorough)
@@ -1296,6 +1426,9 @@ def _judge(tier, seed, res, replay, frames, batches, runs, fresh, keys, zy, n_wo
                 "impl": brief(fresh[k]), "expected": brief(eo), "finding": None,
                 "why": ["the same operations give different output in two fresh processes "
                         "(forked pristine interpreter vs brand-new interpreter)"]})
+
+    # ---- determinism across interpreters started with different hash seeds
+    hashseed_stage(tier, seed, res, replay, frames)
 
     # ---- the driver: Spec.C07.holds on (impl, fresh) pairs, and the model on the projection
     out_table, out_index = [], {}
